@@ -228,6 +228,13 @@ def purity(report, sig_base, what, func, make_arg, allowed_shared, case, nontriv
 # ------------------------------------------------------------------------------------------------------------
 # types leg
 
+def _outcome(func, arg):
+    try:
+        return ("ok", func(arg))
+    except Exception as e:  # noqa: BLE001
+        return ("err", type(e).__name__)
+
+
 def types_shard(types):
     report = Report()
     for ts in types:
@@ -238,12 +245,25 @@ def types_shard(types):
                 loader = r.get_loader(hint)
             except Exception:  # noqa: BLE001
                 continue
+            first_pass = []
             for datum in data_for(ts):
                 if datum.one_shot:
                     continue
                 purity(report, {"check": "C20.load", "node": unwrap(ts)[0]}, f"load {show(ts)} <- {datum.name} [{mode_name(mode)}]",
                        loader, datum.fresh, lambda a, ts=ts: passthrough_ids(ts, a),
                        {"key": ("t", ts, datum.name, mode), "kind": "load", "type": to_json(ts), "datum": datum.name, "mode": list(mode)})
+                first_pass.append((datum, _outcome(loader, datum.fresh())))
+            # "repeating a call with equal arguments gives equal results" - also after calls with OTHER arguments in between:
+            # every datum once more, after the loader has seen the whole alphabet
+            for datum, before in first_pass:
+                report.evaluations += 1
+                after = _outcome(loader, datum.fresh())
+                if before[0] != after[0] or (before[0] == "ok" and not struct_eq(before[1], after[1])) or \
+                        (before[0] == "err" and before[1] != after[1]):
+                    report.violation({"check": "C20.load", "node": unwrap(ts)[0], "problem": "result_depends_on_earlier_calls"},
+                                     f"load {show(ts)} <- {datum.name} [{mode_name(mode)}]: {codec.show(before[1], 60)} at first, "
+                                     f"{codec.show(after[1], 60)} after the loader had been called with the other data of the alphabet",
+                                     {"kind": "load", "type": to_json(ts), "datum": datum.name, "mode": list(mode)})
             if not dumper_exists(ts):
                 continue
             try:
@@ -580,6 +600,28 @@ def error_objects_leg(report):
                     break
 
 
+def extra_out_targets_leg(report):
+    """several extra_out target fields (typed Any / Dict[str, Any] / Dict[str, int], every order of 2 and 3 of them): the dumper
+    merges their items into the result and must leave the dumped object alone"""
+    import itertools
+    from adaptix import name_mapping
+    cands = {"e_any": (Any, {"x": 1}), "e_dict_any": (Dict[str, Any], {"y": [2]}), "e_dict_int": (Dict[str, int], {"z": 3})}
+    for n in (2, 3):
+        for targets in itertools.permutations(cands, n):
+            cls = dataclasses.make_dataclass("M", [("a", int)] + [(t, cands[t][0]) for t in targets])
+            for dbg in ("DISABLE", "ALL"):
+                try:
+                    dumper = retort_with([name_mapping(cls, extra_out=list(targets))], (dbg, True)).get_dumper(cls)
+                except Exception:  # noqa: BLE001
+                    report.outcome("extra_out targets: refused")
+                    continue
+                purity(report, {"check": "C20.model_dump", "site": "extra_out_targets"}, f"dump with extra_out={list(targets)} [{dbg}]", dumper,
+                       lambda cls=cls, targets=targets: cls(1, *[copy.deepcopy(cands[t][1]) for t in targets]),
+                       # values typed Any (the items of e_any and of e_dict_any) pass through; the target dicts themselves never do
+                       lambda a: {i for t in targets if t != "e_dict_int" for i in containers(getattr(a, t)) if i != id(getattr(a, t))},
+                       {"key": ("xo", targets, dbg), "kind": "extra_out_targets", "targets": list(targets), "debug": dbg})
+
+
 def retort_with(recipe, mode):
     from adaptix import DebugTrail
     return Retort(recipe=recipe, debug_trail=DebugTrail[mode[0]], strict_coercion=mode[1])
@@ -595,6 +637,7 @@ def run(tier):
     conv_pairs_leg(report)
     variants_leg(report)
     error_objects_leg(report)
+    extra_out_targets_leg(report)
     return report
 
 
@@ -617,6 +660,8 @@ def replay(case):
         variants_leg(report)
     elif case["kind"] == "error_objects":
         error_objects_leg(report)
+    elif case["kind"] == "extra_out_targets":
+        extra_out_targets_leg(report)
     else:
         conv_leg(report)
     for v in report.violations.values():
